@@ -90,6 +90,18 @@ def run(env):
     # ... and the same lazy list observed or printed more than once (a list that was walked to its end, then printed)
     for mk in ("3ƛ;", "3ɾ", "3ƛƛ1;;", "⟨1|2⟩›", "3ɾ'2%;"):
         seeds += [f"{mk}…,", f"{mk}:,,", f"{mk}→a ←a L_ ←a ,", f"{mk}£¥L_¥,¥,", f"{mk}:t_,", f"2({mk},)", f"{mk}…L_…,n"]
+    # an early exit as the LAST statement of a body, with every modifier / shorthand lambda earlier at the same level (the parser then
+    # records the modifier as the exit's parent), in every kind of body
+    pc = env.tables["parser"]
+    mods1, mods2, mods3 = pc["monadic_modifiers"], pc["dyadic_modifiers"], pc["triadic_modifiers"]
+    for m in list(mods1) + list(mods2) + list(mods3):
+        ops = "›" if m in mods1 else ("+-" if m in mods2 else "+-›")
+        mtxt = f"1 2 3 {m}{ops} _" if m not in "⁽‡≬" else f"{m}{ops} _"
+        for ex in ("X", "x"):
+            for body in (f"n {mtxt} {ex}", f"{mtxt} n2=[{ex}]", f"{mtxt} {ex} 1"):
+                seeds += [f"3({body})n", f"3({body})", f"2(2({body})n,)n"]
+                if ex == "X":
+                    seeds += [f"1{{{body}}}n", f"5λ{body};†n", f"3ƛ{body};n", f"@f:1|{body};5@f;n"]
     seeds = list(dict.fromkeys(seeds))
     exhaustive = list(parsecorr.exhaustive(env.budget(3, 4)))
     transcorr.check(env, seeds + gen[: env.budget(400, 3000)])
